@@ -129,6 +129,7 @@ fn run_inner(ex: &mut Exec<'_>, plan: &Plan) -> Result<(), Stop> {
     let polls = ex.last_build_polls;
     let c = ex.sys.counters();
     let (n_writes, n_mmaps, n_creates) = (c.scratch_write, c.scratch_mmap, c.scratch_create);
+    let n_madvise = c.scratch_madvise;
     match res {
         BuildResult::Ok => {}
         BuildResult::Err(k, m) => {
@@ -150,7 +151,7 @@ fn run_inner(ex: &mut Exec<'_>, plan: &Plan) -> Result<(), Stop> {
     // ---- scenarios
     let scenarios: Vec<Fault> = match &plan.scenarios {
         Some(s) => s.clone(),
-        None => enumerate(plan, polls, n_writes, n_mmaps, n_creates),
+        None => enumerate(plan, polls, n_writes, n_mmaps, n_creates, n_madvise, ex.plan.cfg.private_tmpdir),
     };
     for (si, f) in scenarios.iter().enumerate() {
         ex.out.stats.cases += 1;
@@ -166,6 +167,7 @@ fn run_inner(ex: &mut Exec<'_>, plan: &Plan) -> Result<(), Stop> {
             Fault::Scratch { kind, ordinal, errno } => match kind.as_str() {
                 "write" => sf.write_fail = Some((*ordinal, *errno)),
                 "mmap" => sf.mmap_fail = Some(*ordinal),
+                "madvise" => sf.madvise_fail = Some(*ordinal),
                 _ => sf.create_fail = Some((*ordinal, *errno)),
             },
             Fault::Benign { eintr_every, short_every } => {
@@ -214,11 +216,12 @@ fn run_inner(ex: &mut Exec<'_>, plan: &Plan) -> Result<(), Stop> {
             Fault::Scratch { kind, .. } => match kind.as_str() {
                 "write" => after.fired_write_fail > before.fired_write_fail,
                 "mmap" => after.fired_mmap_fail > before.fired_mmap_fail,
+                "madvise" => after.fired_madvise_fail > before.fired_madvise_fail,
                 _ => after.fired_create_fail > before.fired_create_fail,
             },
             Fault::Benign { .. } => after.fired_eintr + after.fired_short > before.fired_eintr + before.fired_short,
             Fault::BadTmpdir { .. } => after.scratch_create > 0,
-            Fault::MapFull { .. } => true,
+            Fault::MapFull { .. } => matches!(&res, BuildResult::Err(k, _) if k.contains("MapFull")),
             Fault::None => false,
         };
         let fname = fault_name(f);
@@ -311,7 +314,7 @@ fn fault_name(f: &Fault) -> String {
     }
 }
 
-fn enumerate(plan: &Plan, polls: u64, n_writes: u64, n_mmaps: u64, n_creates: u64) -> Vec<Fault> {
+fn enumerate(plan: &Plan, polls: u64, n_writes: u64, n_mmaps: u64, n_creates: u64, n_madvise: u64, private_tmpdir: bool) -> Vec<Fault> {
     let mut v = Vec::new();
     let mut r = Rng::new(plan.seed ^ 0x5CE);
     // cancel at every n
@@ -336,6 +339,15 @@ fn enumerate(plan: &Plan, polls: u64, n_writes: u64, n_mmaps: u64, n_creates: u6
     }
     for mode in ["missing", "file"] {
         v.push(Fault::BadTmpdir { mode: mode.into() });
+    }
+    if !private_tmpdir {
+        // the default path (tempfile::tempfile()) with an unusable TMPDIR
+        for mode in ["env_missing", "env_file"] {
+            v.push(Fault::BadTmpdir { mode: mode.into() });
+        }
+    }
+    for o in 0..n_madvise.min(20) {
+        v.push(Fault::Scratch { kind: "madvise".into(), ordinal: o, errno: libc::EINVAL });
     }
     for o in 0..n_creates.min(40) {
         for errno in [libc::EMFILE, libc::ENOSPC] {
